@@ -5,27 +5,27 @@ ROOT = os.path.abspath(os.path.join(os.path.dirname(__file__), ".."))
 NOT_BUILT = set(os.environ.get("VERIF_NOT_BUILT", "").split(",")) - {""}
 
 P = {
- "C01": ("universal invariant (no panic in the debug-assertion and optimized builds, hook iteration budget 256+16*len, tokens/errors <= 16+4*len, no 9xxx error) over bounded-exhaustive trigger strings, generated soups/programs/truncations and an 8-64 MiB input; seeded proptest + sweeps, libFuzzer in the thorough tier",
+ "C01": ("universal invariant (no panic in the debug-assertion and optimized builds, hook iteration budget 256+16*len, tokens/errors <= 16+4*len, no 9xxx error) over bounded-exhaustive trigger strings, generated soups/programs/truncations, an 8-64 MiB input and counter-boundary inputs (units repeated 2^7..2^16 times, also on an optimized build with overflow checks); a hang verdict needs a single lexer call stuck for 45 s and again for 60 s in a fresh process; seeded proptest + sweeps, libFuzzer in the thorough tier",
          "generated-input search against the totality invariant", "5/C01"),
  "C02": ("tiling invariant computed from the source text (boundaries, order, single EOF, raw-text concatenation, every accessor Ok) on the optimized, debug and no-macro_sep builds", "generated-input search against an invariant computed from the source", "5/C02"),
  "C03": ("char offsets of tokens and errors compared with code-point counts computed from the source; code-point slicing == byte slicing; multi-byte mutation of generated inputs; both advance_by branches (debug/optimized)", "generated-input search against an independent position table", "5/C03"),
  "C04": ("start/end line and column of every token and error and the line count compared with tables computed from the source; line feeds inserted at every position of generated programs", "generated-input search against an independent position table", "5/C04"),
  "C05": ("differential between the bulk resolved-token vector and the ten per-token accessors of the same buffer", "differential of two views of one result over generated inputs", "5/C05"),
  "C06": ("per-type shape table (DESIGN 4.2) and channel rules evaluated on every token of generated inputs, three builds", "generated-input search against a per-type shape specification", "5/C06"),
- "C07": ("payload ranges partition the literal buffer; payload text equals independently unquoted raw text (doubled quotes, %-quotes, Latin-1 hex decoding) and is present iff there is something to unquote", "generated-input search against an independent unquoting oracle", "5/C07"),
+ "C07": ("payload ranges partition the literal buffer; payload text equals independently unquoted raw text (doubled quotes, %-quotes, Latin-1 hex decoding; every one- and two-byte hex literal enumerated) and is present iff there is something to unquote", "generated-input search against an independent unquoting oracle", "5/C07"),
  "C08": ("numeric payload equals Rust std's u64 / correctly rounded f64 parse of the token text, type follows notation, malformed literals span exactly; boundary values and exhaustive short spellings", "differential against std number parsing over generated spellings", "5/C08"),
- "C09": ("error offsets on boundaries and ordered, last_token valid and not after the error, bijection between missing-expected errors and zero-width recovery tokens; hook counters measure how many cases rolled back", "generated-input search against an anchoring invariant", "5/C09"),
+ "C09": ("error offsets on boundaries and ordered, last_token valid and not after the error, missing-expected errors and zero-width recovery tokens coincide per symbol and offset; hook counters measure how many cases rolled back", "generated-input search against an anchoring invariant", "5/C09"),
  "C10": ("bracket automaton over the token types (string expressions, datalines triple, label colon, built-in '(') on every truncation of generated programs and on soups", "generated-input search against a structural automaton", "5/C10"),
  "C11": ("differential against a ~300-line reference lexer for macro-free open code written from the grammar (DESIGN 4.5): (type, channel, offset)* and (error kind, offset)*", "differential against a reference implementation over generated inputs", "5/C11"),
  "C12": ("construct-grammar programs (DESIGN 4.6) must lex without error and end in the initial configuration (hook snapshot) in the debug and optimized builds", "grammar-based generation; generator-knows-the-answer oracle", "5/C12"),
  "C13": ("construct-grammar programs with recorded marks: every real delimiter/operator/integer operand is a token of the stated type and channel, no masked delimiter is a delimiter token, gaps are hidden", "grammar-based generation with recorded delimiter positions", "5/C13"),
- "C14": ("single-delimiter deletions of construct-grammar programs: matching 'missing expected' error and zero-width recovery token at the predicted offset", "fault-injecting mutation of grammar-generated programs", "5/C14"),
- "C15": ("metamorphic: lex(A+B) == lex(A) without EOF ++ shift(lex(B)) for closed prefixes A (grammar programs, closed statement lists, arbitrary strings the hook reports closed) and arbitrary B; two feature configurations", "metamorphic relation over generated pairs", "5/C15"),
- "C16": ("metamorphic: ASCII case variants give identical results modulo literal-buffer case; all 2^n spellings of every keyword, mnemonic, suffix, datalines keyword; random masks on generated inputs", "metamorphic relation; exhaustive masks per keyword", "5/C16"),
+ "C14": ("single-delimiter deletions of construct-grammar programs (with and, where the follower cannot continue a name, without a blank in place), truncation before a ')' and cuts inside open parentheses: matching 'missing expected' error and zero-width recovery token at the predicted offset, number of ')' diagnostics bounded by the calls still open", "fault-injecting mutation of grammar-generated programs", "5/C14"),
+ "C15": ("metamorphic: lex(A+B) == lex(A) without EOF ++ shift(lex(B)) for closed prefixes A (grammar programs, closed statement lists, arbitrary strings the hook reports closed) and arbitrary B plus three of 34 state-probing continuations per closed A; two feature configurations", "metamorphic relation over generated pairs", "5/C15"),
+ "C16": ("metamorphic: ASCII case variants give identical results modulo literal-buffer case; all 2^n spellings of every keyword, mnemonic, suffix, datalines keyword; random masks on generated inputs, every one- and two-byte hex literal", "metamorphic relation; exhaustive masks per keyword", "5/C16"),
  "C17": ("metamorphic: lex(BOM+s) shifted by (3 bytes, 1 char) == lex(s) including lines, columns, payloads, errors", "metamorphic relation over generated inputs", "5/C17"),
  "C18": ("differential between the macro_sep and default feature builds of the same tree linked into one process: equal after removing MacroSep and renumbering; placement rules of MacroSep", "differential of two build configurations over generated inputs", "5/C18"),
- "C19": ("differential: debug-assertion vs optimized build in one process; 16 threads lexing batches concurrently vs single-threaded; re-lexing after other inputs; stable vs nightly toolchain harness digests", "differential across builds, threads, history and toolchains over generated inputs", "5/C19"),
- "C20": ("Hypothesis against the real extension module built from the tree: own msgpack decoder, positional decoding through the shipped dataclass field order, tiling/line/column/enum/payload contract in Python; enum files compared with regenerated ones", "Hypothesis property-based testing of the binding + exhaustive enum comparison", "5/C20"),
+ "C19": ("differential: debug-assertion vs optimized build in one process (a failure of exactly one of them is the violation); 16 threads lexing batches concurrently vs single-threaded; re-lexing after other inputs; stable vs nightly toolchain harness digests", "differential across builds, threads, history and toolchains over generated inputs", "5/C19"),
+ "C20": ("Hypothesis against the real extension module built from the tree: own msgpack decoder, positional decoding through the shipped dataclass field order, tiling/line/column/enum/payload contract in Python (also for str with unpaired surrogates); the package's public lex_program_from_str run end to end through a msgspec stand-in and compared with the payload; call histories (a same-length neighbour lexed right before); enum files compared with regenerated ones and with the linked crate's declarations", "Hypothesis property-based testing of the binding + exhaustive enum comparison", "5/C20"),
 }
 checks = []
 na = []
@@ -57,7 +57,7 @@ m = {
    "add_only": True,
  },
  "engines": [
-   {"name": "sasverif", "path": "/verif/harness", "serves_properties": [p for p in sorted(P) if p != "C20"], "kind_free_text": "Rust harness linking three configurations (debug-assert, optimized, optimized without macro_sep) of the working-tree lexer; choice-stream generators driven by seeded proptest runners (16 shards), bounded-exhaustive sweeps, saved replays; libFuzzer targets over the same generators in the thorough tier"},
+   {"name": "sasverif", "path": "/verif/harness", "serves_properties": [p for p in sorted(P) if p != "C20"], "kind_free_text": "Rust harness linking five configurations (debug-assert with and without macro_sep, optimized with and without macro_sep, optimized with overflow checks) of the working-tree lexer; choice-stream generators driven by seeded proptest runners (16 shards), bounded-exhaustive sweeps, saved replays; libFuzzer targets over the same generators in the thorough tier"},
    {"name": "c20-hypothesis", "path": "/verif/py", "serves_properties": ["C20"], "kind_free_text": "Hypothesis (tooling venv) against the extension module built from a scratch copy of the tree"},
  ],
  "checks": checks,
